@@ -3,12 +3,13 @@
    Reading guide.  `enc_sk`, `dec_glwe`, ... are the transcriptions of glwe_encrypt_sk_internal / glwe_decrypt (Model/EncModel.v),
    tied to the code bit for bit by the correspondence check on four backends.  Values on the torus are integers scaled by 2^P
    (`val_scaled`, `lval`), `tor_abs P x` is the distance of x/2^P to the nearest integer times 2^P, `wt P b j = 2^(P-(j+1)b)`
-   is the weight of limb j.  `normalize_value_ok` is the value statement of C08 about the normalisers, taken as a hypothesis
-   (C08_normalize_inter_value proves it for the same-radix 64-bit routine; the C08 oracle checks it on every record for the
-   cross-radix and big-accumulator routines).  The magnitude hypotheses are the backend's exact-product domain:
+   is the weight of limb j.  `normalize_value_ok` is the value statement of C08 about the normalisers.  It is a hypothesis of the general
+   theorems (all radices up to R, any accumulator width); for the same-radix 64-bit case it is DISCHARGED from C08's theorems
+   (C01_normalize_value_ok_*_from_C08, C01_*_fft64 below); for the cross-radix and the NTT120 i128 routines the C08 oracle checks it
+   on every record.  The magnitude hypotheses are the backend's exact-product domain:
    S bounds the 1-norm of every secret polynomial, E the error, M the plaintext digits. *)
 From PV Require Import Base.MachineInt Model.Znx Model.Limbs Model.Flat Model.DftAbs Model.C08Oracle Model.EncModel
-  Proofs.EncValue Proofs.EncLists Proofs.EncSampler Proofs.C01Sk Proofs.C01Glwe Proofs.C01Lwe Proofs.C01Pk.
+  Proofs.EncValue Proofs.EncLists Proofs.EncSampler Proofs.C01Sk Proofs.C01Glwe Proofs.C01Lwe Proofs.C01Pk Proofs.EncC08 Proofs.EncC08Inst.
 Open Scope Z_scope.
 
 (* decrypt(encrypt m) = m + e * 2^-(limb+1)b + rho on the torus, |rho| <= one unit of the decrypted plaintext's last limb,
@@ -127,6 +128,80 @@ Theorem C01_pk_error_bound :
   <= U * Ep * wt P b (target_limb nkp b) + (E + zn rank * (Sn * E)) * wt P b (target_limb nk b).
 Proof. exact pk_error_bound. Qed.
 Print Assumptions C01_pk_error_bound.
+
+(* ---- the normaliser hypotheses discharged from C08 (same radix, 64-bit words: the FFT64 family, plaintext and decrypted plaintext in
+   the ciphertext's radix b, 1 <= b <= 62): C08_normalize_inter_value / C08_normalize_assign_value, rescaled to every admissible P ---- *)
+Theorem C01_normalize_value_ok_small_from_C08 : forall b : Z, 1 <= b <= 62 ->
+  normalize_value_ok_dom (fun x => x = b) (fun rb ab => normalize 64 rb ab 0) (2 ^ 62).
+Proof. exact normalize_value_ok_small_same. Qed.
+Print Assumptions C01_normalize_value_ok_small_from_C08.
+
+Theorem C01_normalize_value_ok_big_from_C08 : forall b : Z, 1 <= b <= 62 ->
+  normalize_value_ok_dom (fun x => x = b) (bnorm 64) (2 ^ (64 - 2)).
+Proof. exact normalize_value_ok_big_same. Qed.
+Print Assumptions C01_normalize_value_ok_big_from_C08.
+
+Theorem C01_normalize_assign_value_ok_from_C08 : forall b : Z, 1 <= b <= 62 -> normalize_assign_value_ok_dom (fun x => x = b).
+Proof. exact normalize_assign_value_ok_same. Qed.
+Print Assumptions C01_normalize_assign_value_ok_from_C08.
+
+(* hence, with NO hypothesis about the normalisers: *)
+Theorem C01_sk_roundtrip_fft64 :
+  forall (b : Z) (n size psize rank : nat) (nk S E M : Z), 1 <= b <= 62 -> 0 <= S ->
+  forall (pt : ccol) (sk : list poly) (us : nat -> Z) (e : poly) (ct : list ccol) (d : ccol),
+  length sk = rank ->
+  Forall (fun s => norm1 s <= S) sk ->
+  (forall k, (k < n)%nat -> Z.abs (nthZ e k) <= E) ->
+  (forall k, (k < n)%nat -> bnd M (coef pt k)) ->
+  zn rank * 2 ^ (b - 1) + E + M <= 2 ^ 62 ->
+  zn rank * (S * 2 ^ (b - 1)) + 2 ^ (b - 1) <= 2 ^ (64 - 2) ->
+  S * 2 ^ (b - 1) <= 2 ^ (64 - 2) ->
+  enc_sk 64 b n size rank nk (Some (pt, O)) sk us e = Some ct ->
+  dec_glwe 64 b b n size psize sk ct = Some d ->
+  forall k, (k < n)%nat -> length (coef d k) = psize /\
+    forall P, zn size * b <= P -> zn psize * b <= P -> 1 <= P ->
+    (exists q, lval P b size (coef (hd [] ct) k) + lvsum P b size (prods_at n size sk (tl ct) k)
+               = lval P b size (coef pt k) + nthZ e k * wt P b (target_limb nk b) + q * 2 ^ P) /\
+    tor_abs P (val_scaled P b (coef d k) - val_scaled P b (firstn size (coef pt k)) - nthZ e k * wt P b (target_limb nk b))
+      <= 2 ^ (P - zn psize * b).
+Proof. exact sk_roundtrip_fft64. Qed.
+Print Assumptions C01_sk_roundtrip_fft64.
+
+Theorem C01_lwe_roundtrip_same_radix :
+  forall (b : Z) (size psize : nat) (nk D E M : Z), 1 <= b <= 62 ->
+  forall (pt s : list Z) (a : list (list Z)) (e : Z) (body d : list Z),
+  (forall j, Z.abs (lwe_dot (nth j a []) s) <= D) -> Z.abs e <= E -> bnd M pt ->
+  D + E + M <= 2 ^ 62 -> D + 2 ^ (b - 1) <= 2 ^ 62 ->
+  lwe_enc_body b size nk pt s a e = Some body ->
+  lwe_dec b b size psize s a body = Some d ->
+  length d = psize /\
+  forall P, zn size * b <= P -> zn psize * b <= P -> 1 <= P ->
+    tor_abs P (val_scaled P b d - val_scaled P b (firstn size pt) - e * wt P b (target_limb nk b)) <= 2 ^ (P - zn psize * b).
+Proof. exact lwe_roundtrip_same_radix. Qed.
+Print Assumptions C01_lwe_roundtrip_same_radix.
+
+Theorem C01_pk_roundtrip_fft64 :
+  forall (b : Z) (n size psize rank : nat) (nk nkp Sn U E Ep M : Z), 1 <= b <= 62 -> 0 <= Sn -> 0 <= U ->
+  forall (pt : ccol) (sk : list poly) (us : nat -> Z) (epk u : poly) (es : list poly) (pk ct : list ccol) (d : ccol),
+  length sk = rank -> length es = S rank ->
+  Forall (fun s => length s = n /\ norm1 s <= Sn) sk -> length u = n -> norm1 u <= U ->
+  length epk = n -> Forall (fun e => length e = n) es ->
+  (forall k, (k < n)%nat -> Z.abs (nthZ epk k) <= Ep) ->
+  (forall i k, (k < n)%nat -> Z.abs (nthZ (nth i es []) k) <= E) ->
+  (forall k, (k < n)%nat -> bnd M (coef pt k)) -> 0 <= M ->
+  zn rank * 2 ^ (b - 1) + Ep <= 2 ^ 62 ->
+  Sn * 2 ^ (b - 1) <= 2 ^ (64 - 2) ->
+  U * 2 ^ (b - 1) + E + M <= 2 ^ (64 - 2) ->
+  zn rank * (Sn * 2 ^ (b - 1)) + 2 ^ (b - 1) <= 2 ^ (64 - 2) ->
+  enc_sk 64 b n size rank nkp None sk us epk = Some pk ->
+  enc_pk 64 b n size size nk (Some pt) u pk es = Some ct ->
+  dec_glwe 64 b b n size psize sk ct = Some d ->
+  forall k, (k < n)%nat -> length (coef d k) = psize /\
+    forall P, zn size * b <= P -> zn psize * b <= P -> 1 <= P ->
+    tor_abs P (val_scaled P b (coef d k) - val_scaled P b (firstn size (coef pt k)) - pk_error b rank nk nkp P sk u epk es k)
+      <= 2 ^ (P - zn psize * b).
+Proof. exact pk_roundtrip_fft64. Qed.
+Print Assumptions C01_pk_roundtrip_fft64.
 
 (* `prods_at` really is the product of the clear secret with the mask, limb by limb: (s_i * a_i)_k *)
 Theorem C01_phase_products : forall (s : poly) (n size : nat) (c : ccol) (k : nat), (k < n)%nat ->
